@@ -143,16 +143,41 @@ def task_fn(name: str):
     return deco
 
 
+class UnitTimeout(BaseException):
+    """Raised in a worker by SIGALRM when one unit exceeds its hard wall-clock limit."""
+
+
+def _on_alarm(signum, frame):
+    raise UnitTimeout()
+
+
 def _run_task(args):
+    import signal
+
     fn, task = args
     t0 = time.time()
+    limit = int(task.get("hard_timeout_s") or os.environ.get("VERIF_UNIT_TIMEOUT", "0") or (300 if os.environ.get("VERIF_TIER_EFFECTIVE", "quick") == "quick" else 2400))
+    try:
+        signal.signal(signal.SIGALRM, _on_alarm)
+        signal.setitimer(signal.ITIMER_REAL, limit)
+    except (ValueError, OSError):
+        pass
     try:
         if fn is None:
             fn = TASK_FNS[task["fn"]]
         r = fn(task)
+    except UnitTimeout:
+        r = new_result(str(task.get("unit", task)))
+        r["inconclusive"].append(("unit", f"hard timeout after {limit}s (possible non-termination of the code under test; not counted as held)"))
+        r["timed_out"] = True
     except BaseException as e:  # noqa: BLE001
         r = new_result(str(task.get("unit", task)))
         r["harness_errors"].append(f"{type(e).__name__}: {e}\n{traceback.format_exc()[-1500:]}")
+    finally:
+        try:
+            signal.setitimer(signal.ITIMER_REAL, 0)
+        except (ValueError, OSError):
+            pass
     r["wall_s"] = time.time() - t0
     return r
 
